@@ -204,4 +204,33 @@ StepIntLogCondY(c, p, r, y, sh) ==
                  \o [k \in 1..Len(h0) |-> TermM(FMul(FQ(-1, 2), h0[k].c), h0[k].ln, h0[k].f, h0[k].t, LNLn(2))]
     IN <<T1(FNeg(FHalfOf(quad0)), LNZero), TermM(FQ(-1, 2), LNZero, "one", 0, LN(0, 2 * HDy(c), FMul(d0, d0)))>>
          \o ValSumTo([i \in 1..HDk(c) |-> unit(i)], HDk(c))
+
+(***************************************************************************)
+(* C17, tightness at zero input weights (exp and cosh-1 links, square A):  *)
+(* with w_i = 0 the noise is homoscedastic, Sigma = AA' + sum_i a_i a_i'   *)
+(* link(w0_i), and E_{p(x)}[ln N(y; Mx+b, Sigma)] is available in closed   *)
+(* form.  With A_k'(AA')^-1 A_k = I:                                       *)
+(*   Lambda = L0 - sum_i g_i L0 a_i a_i' L0,  g_i = link/(1+link)          *)
+(*   ln det Sigma = ln det Sigma0 + sum_i ln(1 + link(w0_i))               *)
+(* exp:    g = sigmoid(w0), ln(1+link) = ln(1+e^w0)  (atoms "sigmoid", "ln1pexp")   *)
+(* cosh-1: g = 1 - sech(w0), ln(1+link) = ln cosh(w0) (atoms "sech", "lncosh")      *)
+(* The library's bound must EQUAL this value (gap exactly zero).           *)
+(***************************************************************************)
+ZeroWIntLogCondY(c, p, r, y) ==
+    LET T == Truth(p, r)
+        L0 == Inv(HSigma0(c))
+        d0 == Det(HSigma0(c))
+        res == VSub(y, VAdd(MatVec(c.M[1], T.mu), c.b[1]))
+        quad0 == FAdd(Trace(MatMul(L0, MatMulT(MatMul(c.M[1], T.Sig), c.M[1]))), Quad(res, L0, res))
+        unit(i) ==
+            LET a == HAk(c, i)
+                La == MatVec(L0, a)
+                cv == VecMat(La, c.M[1])
+                Eg2 == FAdd(FMul(Dot(La, res), Dot(La, res)), Quad(cv, T.Sig, cv))     \* E[(a' L0 r)^2]
+                w0 == HW0(c, i)
+            IN IF c.cls = "HetExp"
+               THEN <<Term(FHalfOf(Eg2), LNZero, "sigmoid", w0), Term(FQ(-1, 2), LNZero, "ln1pexp", w0)>>
+               ELSE <<T1(FHalfOf(Eg2), LNZero), Term(FNeg(FHalfOf(Eg2)), LNZero, "sech", w0), Term(FQ(-1, 2), LNZero, "lncosh", w0)>>
+    IN <<T1(FNeg(FHalfOf(quad0)), LNZero), TermM(FQ(-1, 2), LNZero, "one", 0, LN(0, 2 * HDy(c), FMul(d0, d0)))>>
+         \o ValSumTo([i \in 1..HDk(c) |-> unit(i)], HDk(c))
 =============================================================================
